@@ -1,4 +1,5 @@
 #!/bin/bash
+# ONLY="C05 C10" restricts the run to these checks.
 # Runs the relevant quick checks against every behaviour-preserving refactoring under /verif/refactors (false-alarm test).
 cd /verif
 declare -A REL
@@ -16,6 +17,7 @@ for d in refactors/*/; do
   cd /verif
   res=""
   for ID in ${REL[$area]}; do
+    if [ -n "$ONLY" ] && ! echo " $ONLY " | grep -q " $ID "; then continue; fi
     out=$(./check $ID --tier quick 2>&1 | grep -v WARN | grep -v "^KNOWN")
     code=$(echo "$out" | grep -o "exit=[0-9]" | tail -1)
     if [ "$code" != "exit=0" ]; then res="$res ALARM:$ID($code)"; echo "$out" | grep -E "^VIOL|key=|HARNESS|INCONCL" | cut -c1-400 | head -8 | sed "s/^/    [$n $ID] /"; fi
